@@ -1,9 +1,12 @@
 package props
 
 import (
+	"bytes"
+	"encoding/json"
 	"fmt"
 	"sort"
 	"strings"
+	"time"
 
 	"github.com/lidofinance/dc4bc/client/types"
 
@@ -92,7 +95,56 @@ type c07World struct {
 	key   []byte
 }
 
-func newC07World(seed uint64, n, t int) (*c07World, error) {
+// ageRound moves every timestamp stored for the round back by age on every node: the state a node
+// holds when the key generation took place that long ago.
+func ageRound(ce *Ceremony, age time.Duration) error {
+	var shift func(v interface{}) interface{}
+	shift = func(v interface{}) interface{} {
+		switch t := v.(type) {
+		case map[string]interface{}:
+			for k, x := range t {
+				t[k] = shift(x)
+			}
+		case []interface{}:
+			for i, x := range t {
+				t[i] = shift(x)
+			}
+		case string:
+			if ts, err := time.Parse(time.RFC3339Nano, t); err == nil && !ts.IsZero() {
+				return ts.Add(-age).Format(time.RFC3339Nano)
+			}
+		}
+		return v
+	}
+	for _, nd := range ce.W.Nodes {
+		key := world.Topic + "_fsm_state"
+		bz, err := nd.State.Get(key)
+		if err != nil {
+			return err
+		}
+		var m map[string][]byte
+		if err := json.Unmarshal(bz, &m); err != nil {
+			return err
+		}
+		dec := json.NewDecoder(bytes.NewReader(m[ce.Round]))
+		dec.UseNumber()
+		var dump interface{}
+		if err := dec.Decode(&dump); err != nil {
+			return err
+		}
+		m[ce.Round], _ = json.Marshal(shift(dump))
+		out, _ := json.Marshal(m)
+		if err := nd.State.Set(key, out); err != nil {
+			return err
+		}
+	}
+	return nil
+}
+
+func newC07World(seed uint64, n, t int) (*c07World, error) { return newC07WorldAged(seed, n, t, 0) }
+
+// newC07WorldAged: the key generation was completed `age` ago.
+func newC07WorldAged(seed uint64, n, t int, age time.Duration) (*c07World, error) {
 	ce, err := NewCeremony(seed, n, t, world.EagerPolicy)
 	if err != nil {
 		return nil, err
@@ -105,6 +157,16 @@ func newC07World(seed uint64, n, t int) (*c07World, error) {
 	if err != nil {
 		ce.Close()
 		return nil, err
+	}
+	if age > 0 {
+		if err := ageRound(ce, age); err != nil {
+			ce.Close()
+			return nil, fmt.Errorf("ageing the round: %w", err)
+		}
+		if !ce.AllIn(StIdle) {
+			ce.Close()
+			return nil, fmt.Errorf("aged ceremony: %v", ce.States())
+		}
 	}
 	cw := &c07World{ce: ce, board: ce.W.Board.Len(), key: key}
 	for _, nd := range ce.W.Nodes {
@@ -253,7 +315,9 @@ func checkC07(c *Ctx) {
 	}
 	const lanes = 12
 	Parallel(lanes, lanes, func(lane int) {
-		cw, err := newC07World(c.Seed*71+uint64(lane), 3, 2)
+		// every third lane: the key generation took place 8 / 400 days ago (signing may come however late)
+		age := []time.Duration{0, 0, 8 * 24 * time.Hour, 0, 0, 400 * 24 * time.Hour}[lane%6]
+		cw, err := newC07WorldAged(c.Seed*71+uint64(lane), 3, 2, age)
 		if err != nil {
 			c.Inconclusive("world: %v", err)
 			return
@@ -267,7 +331,10 @@ func checkC07(c *Ctx) {
 			for _, tk := range order {
 				names = append(names, tk.String())
 			}
-			wit := map[string]interface{}{"n": 3, "t": 2, "order": strings.Join(names, " "), "polling": "eager"}
+			wit := map[string]interface{}{"n": 3, "t": 2, "order": strings.Join(names, " "), "polling": "eager", "key_generation_completed_ago": age.String()}
+			if age > 0 {
+				c.Add("orders_played_on_a_round_older_than_a_week", 1)
+			}
 			batchIDs, expected, err := cw.play(order, []int{0, 1}, nil)
 			c.Eval(1)
 			c.Add("exhaustive_orders_played", 1)
@@ -366,7 +433,8 @@ func checkC07(c *Ctx) {
 	per := c.Pick(12, 400)
 	Parallel(len(cfgs), 8, func(ci int) {
 		n, t := cfgs[ci].N, cfgs[ci].T
-		cw, err := newC07World(c.Seed*73+uint64(ci), n, t)
+		age := time.Duration(ci%2) * 30 * 24 * time.Hour
+		cw, err := newC07WorldAged(c.Seed*73+uint64(ci), n, t, age)
 		if err != nil {
 			c.Inconclusive("world n=%d t=%d: %v", n, t, err)
 			return
@@ -410,7 +478,7 @@ func checkC07(c *Ctx) {
 			for _, tk := range order {
 				names = append(names, tk.String())
 			}
-			wit := map[string]interface{}{"n": n, "t": t, "order": strings.Join(names, " "), "polling": "lazy", "proposers": proposers}
+			wit := map[string]interface{}{"n": n, "t": t, "order": strings.Join(names, " "), "polling": "lazy", "proposers": proposers, "key_generation_completed_ago": age.String()}
 			batchIDs, expected, err := cw.play(order, proposers, sched.Derive(c.Seed, uint64(ci), uint64(s)))
 			c.Eval(1)
 			c.Distinct(fmt.Sprintf("n%dt%d|%s|lazy%d", n, t, strings.Join(names, " "), s))
